@@ -292,10 +292,10 @@ func c15(c *an.Ctx) {
 			return
 		}
 		exemptRec := map[string]string{
-			"federation.printSelections":           "debug printing, not on a request path",
-			"federation.(*Planner).planUnion":      "walks the flattener's output, a tree: flatten builds one fresh fragment per union member, no fragment is shared",
-			"federation.marshalPbSelections":       "serialises the planner's flattened output: no shared fragments remain",
-			"federation.unmarshalPbSelectionSet":   "input is the gateway's own flattened sub-query",
+			"federation.printSelections":               "debug printing, not on a request path",
+			"federation.(*Planner).planUnion":          "walks the flattener's output, a tree: flatten builds one fresh fragment per union member, no fragment is shared",
+			"federation.marshalPbSelections":           "serialises the planner's flattened output: no shared fragments remain",
+			"federation.unmarshalPbSelectionSet":       "input is the gateway's own flattened sub-query",
 			"graphql.detectCyclesAndUnusedFragments$1": "visitSelectionSet delegates to visitFragment, which carries the visited map",
 		}
 		var names []string
@@ -459,6 +459,10 @@ func c15(c *an.Ctx) {
 		if n < 4 {
 			o.Undecided("expected at least 4 NewRerunner sites, found %d", n)
 		}
+	})
+
+	c.Check("R-GUARD", "validation cannot be bypassed: prepareQuery validates every selection's sub-selection against its field type on every path (an unvalidated field crashes the executor goroutine)", 4, func(o *an.O) {
+		ruleSelectionsValidated(c, o)
 	})
 
 	c.Check("R-ERR", "websocket envelope handlers return errors for malformed JSON and unknown message types", 4, func(o *an.O) {
